@@ -85,9 +85,32 @@ def strip(n):
             n = n["e"]
         elif k == "Block" and not n.get("stmts") and n.get("tail"):
             n = n["tail"]
+        elif k == "MethodCall" and n.get("method") in ("as_slice", "as_mut_slice", "by_ref") and not n.get("args") and (
+                (n.get("path") or "").startswith(("std::vec::Vec", "core::slice::", "core::array::", "std::array::", "std::slice::", "alloc::vec::Vec", "std::io::Read::by_ref", "std::io::Write::by_ref"))):
+            n = n["recv"]       # the same bytes / the same stream
+        elif k == "Index" and is_full_range(n.get("index")):
+            n = n["base"]       # x[..] is x viewed as a slice
+        elif k == "Field" and n.get("idx") is not None and isinstance(n.get("base"), dict) and _tuple_lit(n["base"]) is not None and n["idx"] < len(_tuple_lit(n["base"])["elems"]):
+            n = _tuple_lit(n["base"])["elems"][n["idx"]]      # (a, b).1 is b
         else:
             break
     return n
+
+
+def _tuple_lit(b):
+    while isinstance(b, dict) and (b.get("k") == "AddrOf" or (b.get("k") == "Block" and not b.get("stmts") and b.get("tail"))):
+        b = b.get("e") if b.get("k") == "AddrOf" else b["tail"]
+    return b if isinstance(b, dict) and b.get("k") == "Tup" else None
+
+
+def is_full_range(i):
+    if not isinstance(i, dict):
+        return False
+    if i.get("k") == "Struct" and (i.get("path") or "").endswith("ops::RangeFull"):
+        return True
+    if i.get("k") == "Path" and (i.get("path") or "").endswith("ops::RangeFull"):
+        return True
+    return False
 
 
 def place(n):
@@ -122,6 +145,123 @@ def lit_int(n):
         v = lit_int(n["e"])
         return None if v is None else -v
     return None
+
+
+def bool_branch(n):
+    """(cond, value when true, value when false) for `if c {A} else {B}` and `match c {true => A, _ => B}`; `!c` is flipped.
+    None for anything else (if-let, guards, non-bool scrutinee)."""
+    n = strip(n)
+    k = n.get("k")
+    c = t = f = None
+    if k == "If" and n["cond"].get("k") != "LetCond":
+        c, t, f = n["cond"], n["then"], n.get("else")
+    elif k == "Match" and len(n.get("arms", [])) == 2 and not any(a.get("guard") for a in n["arms"]):
+        a0, a1 = n["arms"]
+
+        def lit(p):
+            return p["e"].get("v") if p.get("k") == "Lit" and p["e"].get("lit") == "bool" else None
+        if lit(a0["pat"]) is True and (a1["pat"].get("k") == "Wild" or lit(a1["pat"]) is False):
+            c, t, f = n["scrut"], a0["body"], a1["body"]
+        elif lit(a0["pat"]) is False and (a1["pat"].get("k") == "Wild" or lit(a1["pat"]) is True):
+            c, t, f = n["scrut"], a1["body"], a0["body"]
+    if c is None:
+        return None
+    cs = strip(c)
+    while cs.get("k") == "Unary" and cs.get("op") == "Not":
+        c, t, f = cs["e"], f, t
+        cs = strip(c)
+    return c, t, f
+
+
+def opt_field_flag(e):
+    """(place of the Option, field) when e means `opt.map_or(false, |q| q.field)` in any of its spellings
+    (map_or, is_some_and, map(..).unwrap_or(false), match/if-let with a false default); None otherwise"""
+    e = strip(e)
+    k = e.get("k")
+
+    def closure_field(cl):
+        cl = strip(cl)
+        if cl.get("k") == "Closure" and len(cl["params"]) == 1 and cl["params"][0].get("k") == "Bind":
+            b = strip(cl["body"])
+            if b.get("k") == "Field" and strip(b["base"]).get("k") == "Path" and strip(b["base"]).get("id") == cl["params"][0].get("id"):
+                return b["name"]
+        return None
+
+    def is_false(x):
+        x = strip(x)
+        return x.get("k") == "Lit" and x.get("lit") == "bool" and x.get("v") is False
+    if k == "MethodCall":
+        m = e["method"]
+        if m == "map_or" and len(e["args"]) == 2 and is_false(e["args"][0]):
+            f = closure_field(e["args"][1])
+            if f:
+                return place(e["recv"]), f
+        if m == "is_some_and" and len(e["args"]) == 1:
+            f = closure_field(e["args"][0])
+            if f:
+                return place(e["recv"]), f
+        if m == "unwrap_or" and len(e["args"]) == 1 and is_false(e["args"][0]):
+            r = strip(e["recv"])
+            if r.get("k") == "MethodCall" and r["method"] == "map" and len(r["args"]) == 1:
+                f = closure_field(r["args"][0])
+                if f:
+                    return place(r["recv"]), f
+    if k == "Match" and len(e["arms"]) == 2 and not any(a.get("guard") for a in e["arms"]):
+        some = none = None
+        for a in e["arms"]:
+            p = a["pat"]
+            while p.get("k") == "Ref":
+                p = p["pat"]
+            if p.get("k") == "TupleStruct" and (p.get("path") or "").endswith("Some") and len(p["pats"]) == 1 and p["pats"][0].get("k") == "Bind":
+                some = (p["pats"][0], a["body"])
+            else:
+                none = a["body"]
+        if some and none is not None and is_false(none):
+            b = strip(some[1])
+            if b.get("k") == "Field" and strip(b["base"]).get("k") == "Path" and strip(b["base"]).get("id") == some[0].get("id"):
+                return place(e["scrut"]), b["name"]
+    return None
+
+
+class LetEnv:
+    """immutable `let x = e` bindings of a body, for following a value back to where it was computed"""
+
+    ADAPTORS = ("as_ref", "as_mut", "as_deref", "ok_or", "ok_or_else", "unwrap", "expect", "clone", "copied", "cloned", "map_err", "to_owned")
+
+    def __init__(self, root):
+        self.lets = {}
+        assigned = set()
+        for n in walk(root):
+            if n.get("k") in ("Assign", "AssignOp"):
+                l = strip(n["l"])
+                if l.get("k") == "Path" and l.get("res") == "local":
+                    assigned.add(l.get("id"))
+        for n in walk(root):
+            if n.get("k") == "Let" and n["pat"].get("k") == "Bind" and n.get("init") is not None and not n.get("els") and n["pat"]["id"] not in assigned:
+                self.lets[n["pat"]["id"]] = n["init"]
+
+    def resolve(self, e, peel=False, depth=0):
+        """follow locals to their initialisers; with peel=True also look through `?` and Option/Result adaptors that keep the payload"""
+        s = strip(e)
+        while depth < 12:
+            if peel and s.get("k") == "Try":
+                s = strip(s["e"])
+            elif peel and s.get("k") == "MethodCall" and s["method"] in self.ADAPTORS:
+                s = strip(s["recv"])
+            elif s.get("k") == "Path" and s.get("res") == "local" and s.get("id") in self.lets:
+                s = strip(self.lets[s["id"]])
+                depth += 1
+            else:
+                break
+        return s
+
+    def place(self, e, peel=True):
+        """place string of e after resolution, resolving the root local of a field path as well"""
+        s = self.resolve(e, peel)
+        if s.get("k") == "Field":
+            b = self.place(s["base"], peel)
+            return None if b is None else b + "." + s["name"]
+        return place(s)
 
 
 def sp(n):
@@ -271,6 +411,25 @@ class Facts:
     def const_body(self, path):
         bs = [b for b in self.bodies.get(path, []) if b["kind"].startswith("Const") or b["kind"].startswith("Static")]
         return bs[0] if bs else None
+
+    def bytes_of(self, e, depth=0):
+        """the constant byte sequence an expression denotes ([1, 2], b"..", a const item, any of them borrowed/sliced whole); None otherwise"""
+        e = strip(e)
+        k = e.get("k")
+        if k == "Array":
+            out = [lit_int(x) for x in e["elems"]]
+            return None if any(v is None for v in out) else out
+        if k == "Lit" and e.get("lit") == "bytes":
+            return list(e["v"])
+        if k == "Lit" and e.get("lit") == "str" and isinstance(e.get("v"), str):
+            return list(e["v"].encode())
+        if k == "MethodCall" and e.get("method") in ("as_bytes", "as_ref", "to_vec", "as_slice") and not e.get("args"):
+            return self.bytes_of(e["recv"], depth + 1)
+        if k == "Path" and e.get("res") == "def" and (e.get("dk") or "").startswith(("Const", "Static")) and depth < 4:
+            b = self.const_body(e.get("path"))
+            if b is not None and b.get("tir"):
+                return self.bytes_of(b["tir"]["value"], depth + 1)
+        return None
 
     def impls_of(self, self_ty, trait_suffix=None):
         return [i for i in self.items["impls"] if i["self"] == self_ty and (trait_suffix is None or i["trait"].endswith(trait_suffix))]
